@@ -93,7 +93,9 @@ def prove(pid):
     if os.path.exists(os.path.join(COQ, f"Properties_{pid}_R.v")):
         files.append(f"Properties_{pid}_R.v")
     if os.path.exists(os.path.join(COQ, f"Properties_{pid}_K.v")):
-        files.append(f"Properties_{pid}_K.v")       # kernels as compiled (coq/gen/KernelGen.v, regenerated on every run)
+        files.append(f"Properties_{pid}_K.v")       # kernels as compiled (coq/gen/KernelGen_*.v, regenerated on every run)
+    if os.path.exists(os.path.join(COQ, f"Properties_{pid}_O.v")):
+        files.append(f"Properties_{pid}_O.v")       # whole operations as compiled (coq/gen/OpsGen_*.v, regenerated on every run)
     all_thms, all_ass, logs, good = [], {}, [], True
     for fn in files:
         ok, thms, ass, log = prove_file(fn)
